@@ -173,9 +173,16 @@ class _SqliteShim(types.ModuleType):
         path = str(database)
         if USE_POOL:
             idle = POOL.get(path)
-            if idle:
-                return ConnProxy(idle.pop(), path, pooled=True)
+            while idle:
+                raw = idle.pop()
+                try:
+                    raw.in_transaction  # a connection finalised by the cyclic GC is closed: skip it
+                except _sqlite3.ProgrammingError:
+                    continue
+                return ConnProxy(raw, path, pooled=True)
             timeout = 0.0  # blocking is emulated (see module docstring)
+        if USE_POOL:
+            kw["check_same_thread"] = False  # pooled connections move between (serialised) threads
         conn = _sqlite3.connect(database, timeout=timeout, **kw)
         return ConnProxy(conn, path)
 
@@ -211,7 +218,15 @@ def reset_db(path: str) -> bool:
         forget(path)
         return False
     idle = POOL.get(path)
-    conn = idle.pop() if idle else _sqlite3.connect(path, timeout=30.0, check_same_thread=False)
+    conn = None
+    while idle and conn is None:
+        conn = idle.pop()
+        try:
+            conn.in_transaction
+        except _sqlite3.ProgrammingError:
+            conn = None
+    if conn is None:
+        conn = _sqlite3.connect(path, timeout=30.0, check_same_thread=False)
     try:
         names = [r[0] for r in conn.execute("SELECT name FROM sqlite_master WHERE type='table'").fetchall()]
         for n in names:
